@@ -32,6 +32,30 @@ KFL_RULE = ("type-directed random queries (all operators, literals incl. 1234567
             "of varying type; the generator's syntax tree must equal the real parser's; ")
 
 PROPS = {
+    "C11": dict(
+        proof_modules=["KsVerif.Proofs.C11"],
+        families=["stages.redis", "stages.amqp", "stages.http", "stages.dns"],
+        rule="stages.<proto>: the conversations of redis.conv, amqp.conv (every method, tables holding every field type, "
+             "contents) and http.conv (1-4 exchanges, bodies across 4096 / 8192, chunked / fixed / close-delimited) are "
+             "dissected by the real code; every emitted item is marshalled to JSON and back, analysed, the entry "
+             "marshalled and back, summarised and represented; DNS entries with every record type, 0-2 questions and "
+             "0-2 records per section go through the same stages; panic / error / well-formedness of the representation "
+             "(sections of type table or body, table data a JSON list) recorded per item; non-trivial = at least one item",
+        trusted_base=["Stages/Driver.lean redisShape = the json tags of RedisPacket; demands read off representGeneric / Summarize",
+                      "internal/stages reproduces the JSON round trips of worker and hub"] + LIB,
+        assumptions=["Kafka stages are not covered yet; DNS items are built as the tap would (all record fields present as strings)"],
+    ),
+    "C16": dict(
+        proof_modules=["KsVerif.Proofs.C16"],
+        families=["queries.redis", "queries.amqp", "queries.http", "queries.dns"],
+        rule="queries.<proto>: for every entry produced from the conversations of the stages families, its method, summary "
+             "and status queries and every registered macro are evaluated on that entry by the real kfl.Apply; the Lean "
+             "side parses the same query texts (shapes Summarize produces), prepares and evaluates them on the entry with "
+             "the KFL model and must agree; spec: each non-empty query is true, a macro is true iff its definition names "
+             "the entry's protocol; non-trivial = at least one entry",
+        trusted_base=KFL_TB + ["Kfl/QueryParse.lean: parser for the query shapes Summarize and Macros() produce"] + LIB,
+        assumptions=["values holding quotes, backslashes or control characters give invalid / false queries: recorded finding"],
+    ),
     "C12": dict(
         proof_modules=["KsVerif.Proofs.C12"],
         families=["kfl.eval"],
